@@ -131,6 +131,11 @@ func checkB(c CaseB) *core.Violation {
 		return nil
 	}
 	d := diffs[0]
+	for _, x := range diffs {
+		if astralDiff(x.Want) {
+			return core.V(astralSig, "%s: encoded %s, loaded %s (%d differing item(s))\n--- profile ---\n%s", x.Path, x.Want, x.Got, len(diffs), src)
+		}
+	}
 	return core.V(fmt.Sprintf("writer|value-mismatch|%s|%s", d.Kind, cls), "%s: encoded %s, loaded %s (%d differing item(s))\n--- profile ---\n%s", d.Path, d.Want, d.Got, len(diffs), src)
 }
 
